@@ -65,6 +65,10 @@ def record(n, rho, r0, drmin, drmax, nswp=None, cache=False, m=None, none_at=Non
         F = dense([c_.astype(float) for c_ in cores])
         # integer-valued targets are not generic (many singular minors): no exactness claim, only transparency / counts / types
         generic = False
+    if zeros:
+        # an objective that is exactly 0.0 at many indices (no exactness claim for such a target)
+        F = F.copy()
+        F[np.random.default_rng(seed + 5).random(F.shape) < 0.4] = 0.
     Y0 = teneva.rand(n, r0, seed=seed + 1000)
     ev = []
     ncall = [0]
